@@ -47,7 +47,7 @@ def _java_cmd(xmx, extra_props=()):
 
 _RE_STATES = re.compile(r"(\d+) states generated, (\d+) distinct states found, (\d+) states left on queue")
 _RE_DEPTH = re.compile(r"The depth of the complete state graph search is (\d+)")
-_RE_COV = re.compile(r"^<(\w+) line \d+, col \d+ to line \d+, col \d+ of module (\w+)>: (\d+):(\d+)", re.M)
+_RE_COV = re.compile(r"^<(\w+) line \d+, col \d+ to line \d+, col \d+ of module (\w+)(?: \([\d ]+\))?>: (\d+):(\d+)", re.M)
 _RE_INV = re.compile(r"Error: Invariant (\w+) is violated")
 _RE_PROP = re.compile(r"Error: (?:Temporal properties were violated|Action property (\w+) is violated)")
 
@@ -121,7 +121,7 @@ def run(module, cfg, workers=16, timeout=600, simulate=None, depth=None, seed=No
         r.violation = mi.group(1)
     elif "Error: Deadlock reached" in out:
         r.violation = "deadlock"
-    elif "Temporal properties were violated" in out:
+    elif "Temporal properties were violated" in out or re.search(r"Temporal property \w+ was violated", out):
         r.violation = "temporal"
     elif re.search(r"Error: Action property (\w+)", out):
         r.violation = re.search(r"Error: Action property (\w+)", out).group(1)
